@@ -98,7 +98,7 @@ def diffRes (impl model : RunRes) : Option (String × Nat) :=
   | .panic a, .ok _ => some (s!"impl-panic:{a}", 0)
   | .ok _, .panic b => some (s!"model-fault:{b}", 0)
 
-def modelBudget : Nat := 200000
+def modelBudget : Nat := 4000
 
 /-- per-property projections of a trace: a disagreement between model and implementation is
     attributed to the properties whose projection differs -/
